@@ -124,6 +124,14 @@ Definition expected_choice (u : universe) (var : xvar) (c : cls) : option xvar :
   | None => option_map snd (find (fun qe => lists_base u c (snd qe)) (v_elements var))
   end.
 
+(* a primitive that is not a str is written under the first choice that lists its exact Python type
+   (bool is not int) *)
+Definition expected_prim_choice (var : xvar) (p : prim) : option xvar :=
+  option_map snd (find (fun qe => let e := snd qe in
+                                  negb (v_any_type e) && match v_clazz e with None => true | Some _ => false end
+                                  && negb (v_tokens e) && existsb (ptype_eqb (prim_type p)) (v_types e))
+                       (v_elements var)).
+
 (* names of the depth-1 children of the document element *)
 Fixpoint child_names (depth : nat) (evs : list wevent) : list qname :=
   match evs with
@@ -144,6 +152,8 @@ Definition oracle_compound_names (x : full_case) : bool :=
               let its := match items with VList _ l => l | VNone => [] | x => [x] end in
               let want := map (fun it => match it with
                                          | VObj ci _ => option_map v_qname (expected_choice u var ci)
+                                         | VP (PStr _) => None        (* a str is first offered to every earlier choice *)
+                                         | VP p => option_map v_qname (expected_prim_choice var p)
                                          | _ => None
                                          end) its in
               if forallb (fun o => match o with Some _ => true | None => false end) want
